@@ -29,26 +29,29 @@ fn same_access(a: &Access, s: &SAccess) -> bool {
 }
 
 pub fn run_clif(opc: u8) {
+    crate::arith::reset();
+    unsafe { clif_core::ARITH = clif_core::Arith { mul64: crate::arith::mul64, div64: crate::arith::div64, rem64: crate::arith::rem64, mul32: crate::arith::mul32, div32: crate::arith::div32, rem32: crate::arith::rem32 }; }
     let insn = ebpf::Insn { opc, dst: kani::any(), src: kani::any(), off: kani::any(), imm: kani::any() };
     let si = SInsn { opc, dst: insn.dst, src: insn.src, off: insn.off, imm: insn.imm };
     let next_imm: i32 = kani::any();
     let is_lddw = opc == OP_LDDW;
-    // program: X ; (second half of lddw | filler) ; filler ; exit
+    // program: jumps: X ; filler ; filler ; exit (targets pc 1..3) - everything else: X ; [second half of lddw] ; exit
     let filler = ebpf::Insn { opc: 0xbf, dst: 0, src: 0, off: 0, imm: 0 };
     let second = ebpf::Insn { opc: 0, dst: 0, src: 0, off: 0, imm: next_imm };
     let exit = ebpf::Insn { opc: 0x95, dst: 0, src: 0, off: 0, imm: 0 };
-    let n = 4usize;
-    // requires: the facts verifier::check establishes for instruction 0 of this 4-slot program
+    let jumpy = is_jump(opc);
+    let n = if jumpy { 4usize } else if is_lddw { 3 } else { 2 };
+    // requires: the facts verifier::check establishes for instruction 0 of this program
     kani::assume(wf_facts(&si, 0, n));
     kani::assume(opc != OP_TAIL_CALL);
-    // the jump must land on a real instruction (never slot 1 of an lddw: not an lddw here)
-    let mut prog = [0u8; 32];
+    let mut prog_buf = [0u8; 32];
     let a0 = insn.to_array();
-    let a1 = if is_lddw { second.to_array() } else { filler.to_array() };
-    let a2 = filler.to_array();
+    let a1 = if is_lddw { second.to_array() } else if jumpy { filler.to_array() } else { exit.to_array() };
+    let a2 = if jumpy { filler.to_array() } else { exit.to_array() };
     let a3 = exit.to_array();
     let mut k = 0;
-    while k < 8 { prog[k] = a0[k]; prog[8 + k] = a1[k]; prog[16 + k] = a2[k]; prog[24 + k] = a3[k]; k += 1; }
+    while k < 8 { prog_buf[k] = a0[k]; prog_buf[8 + k] = a1[k]; prog_buf[16 + k] = a2[k]; prog_buf[24 + k] = a3[k]; k += 1; }
+    let prog = &prog_buf[..8 * n];
     // environment
     let mut init = [0u64; 24];
     let iv: [u64; 11] = kani::any();
@@ -68,7 +71,7 @@ pub fn run_clif(opc: u8) {
     let mut helpers: HashMap<u32, ebpf::Helper> = HashMap::new();
     if has_helper { helpers.insert(hkey, helper_fn); }
     kani::cover!(true, "requires: precondition satisfiable");
-    let r = CraneliftCompiler::new(helpers).compile_function(&prog);
+    let r = CraneliftCompiler::new(helpers).compile_function(prog);
     kani::cover!(true, "end of compilation reachable");
     let is_call = opc == OP_CALL;
     let clause: u8 = kani::any();
